@@ -160,6 +160,22 @@ DESC = {
               "two threads proving instances with different public inputs on the same Prover (or clones of it), the second fill landing between the first fill and its interpolation"),
     "C18-8": ("wire-value vectors recycled between proofs through a thread_local and prepared with resize(): stale values survive in the padding rows",
               "an earlier prove on the same thread with more live rows than the current circuit has constraints (std build only)"),
+    "C02-7": ("verifier-only: the batched-opening loop skips tuples whose commitment is the identity, dropping the matching evaluation term from E as well",
+              "a purpose-built proof with an identity wire commitment and a solved-for evaluation (a forger that reads the polynomials from Prover::to_bytes), or an oracle on the pairing product"),
+    "C02-8": ("rows that carry a public input are no longer entered into the permutation (match has_public_input { true => record PI, false => add_witnesses_to_map })",
+              "a circuit in which the witness on a public-input row is also used elsewhere, and an assignment with different values on the two uses"),
+    "C03-6": ("label cache kept as a Vec scanned with cached.starts_with(label): a request gets the first cached label that extends it",
+              "two labels S and S||suffix used in one process, the longer one first"),
+    "C03-7": ("Verifier::verify_with_version merges 'legacy transcript' and 'legacy batching' into one flag: V2 proofs are checked with the V1 equation",
+              "verification under the explicitly selected V2 profile (V2 proving needs the legacy-proving feature)"),
+    "C06-7": ("sequential fall-through of blind_wire_polynomials (taken when rayon::current_num_threads() == 1) indexes the blinder table flat: wires share draws, f5..f7 unused",
+              "a one-thread rayon pool or an alloc-only build"),
+    "C06-8": ("FIPS-style continuous RNG test wraps the caller's RNG: a 64-byte block equal to its predecessor is replaced by OsRng (std) or an extra draw",
+              "an RNG stream in which a draw repeats the one immediately before it"),
+    "C19-6": ("inverse FFT fast path 'all evaluations equal -> constant polynomial' scans the input before it is padded to the domain size",
+              "ifft / coset_ifft of an input shorter than the domain whose entries are all equal and non-zero (every length-1 input)"),
+    "C19-7": ("index-based rewrite of batch_inversion peels slot 0 off without the zero check",
+              "a slice whose first entry is zero"),
 }
 
 
